@@ -17,7 +17,7 @@ LEVEL = 'fault_enumeration'
 RULE = ('one case = (program, assignment of 1-4 generated plug classes to phases and '
         'test_start, fault map over the plug classes: constructor raises / tearDown raises / '
         'tearDown hangs killably / tearDown hangs unkillably with plug_teardown_timeout_s = '
-        '50 ms / tearDown yields 50 times (time-out 400 ms when combined with a hang); the same '
+        '50 ms / tearDown bound on the instance only / tearDown yields 50 times (time-out 400 ms when combined with a hang); the same '
         'plug class may be requested under two argument names, two classes may share one '
         'qualified name, with_args() values may collide with plug argument names; settings); for directed programs every single-plug fault and every pair of '
         'faults is enumerated; seeded random programs x assignments x fault maps extend it; '
@@ -39,7 +39,7 @@ PLAN = {
                  'wall_limit_s': 7200},
 }
 FAULTS = ['ctor_raise', 'ctor_exit', 'td_raise', 'td_hang', 'td_hang_unkillable',
-          'td_slow']
+          'td_slow', 'td_instance']
 
 
 def setup():
@@ -132,6 +132,8 @@ def sampled(tier, rng):
         faults[str(i)] = 'td_hang_unkillable'
       elif r < .65:
         faults[str(i)] = 'td_slow'
+      elif r < .72:
+        faults[str(i)] = 'td_instance'
     yield {'prog': prog, 'cfg': cfg, 'faults': faults}
 
 
